@@ -1,5 +1,5 @@
 """C16 - all members of a target group execute concurrently."""
-import json, os, random
+import json, os, random, shutil
 import vlib, runscen
 from props.sched_meta import TRUSTED, CORR as CORRESPONDENCE
 
@@ -11,7 +11,7 @@ RULE = ("group sizes {2,3,8,24,48} (thorough: 2..64) at the first, middle or las
         "execution fail); the same with a `log tail --stdout --stderr` listener attached and drained, requested by name with --deps, with all members sharing one executable, behind 300 undefined plan entries, "
         "and under --fail-on-undefined (which changes nothing when every member defines the command); distinct by (size, position, commands, listener, flags)")
 
-def case(ctx, rng, n, position, two_cmds, undefined_ahead=0, listener=False, named=False, shared_exec=False, flags=()):
+def case(ctx, rng, n, position, two_cmds, undefined_ahead=0, listener=False, named=False, shared_exec=False, flags=(), one_cpu=False):
     members = ["grp/m%02d" % i for i in range(n)]
     targets = []
     if position in ("middle", "last"): targets.append({"path": "base"})
@@ -48,7 +48,11 @@ def case(ctx, rng, n, position, two_cmds, undefined_ahead=0, listener=False, nam
         try:
             # named=True: the group requested explicitly (`-t <every member> --deps`; in first position no member has a dependency) instead of through the change set
             extra = (["-t"] + list(members) + ["--deps"]) if named else []
-            rc, out, err, raw = rr.run("-c", *cmds, *extra, *flags, timeout=120)
+            # one_cpu: monorail (and its children) confined to a single processor, as in a 1-cpu container or CI runner: how many members
+            # of a group run at once must not depend on how many processors there are
+            prefix = ("taskset", "-c", str(sorted(os.sched_getaffinity(0))[0])) if one_cpu and shutil.which("taskset") else ()
+            if one_cpu: ctx.count("one_cpu" if prefix else "taskset_unavailable")
+            rc, out, err, raw = rr.run("-c", *cmds, *extra, *flags, timeout=120, prefix=prefix)
         except Exception as e:
             import subprocess
             subprocess.run(["pkill", "-f", rr.repo], capture_output=True)
@@ -58,7 +62,7 @@ def case(ctx, rng, n, position, two_cmds, undefined_ahead=0, listener=False, nam
             try: lst.wait(timeout=10)
             except Exception: lst.kill()
         traces = rr.traces()
-        c = {"size": n, "position": position, "commands": cmds, "undefined_ahead": undefined_ahead, "listener": listener, "named": named, "shared_exec": shared_exec, "flags": list(flags)}
+        c = {"size": n, "position": position, "commands": cmds, "undefined_ahead": undefined_ahead, "listener": listener, "named": named, "shared_exec": shared_exec, "flags": list(flags), "one_cpu": one_cpu}
         for f in flags: ctx.count("flag_" + f)
         ctx.count("shared_executable" if shared_exec else "own_executables")
         ctx.count("requested_by_name" if named else "requested_by_changes")
@@ -99,11 +103,14 @@ def run(ctx, scale):
     # invocation flags that change nothing when every member defines the command: the group still starts whole
     for i, (n, pos) in enumerate([(5, "first"), (24, "middle")] if ctx.quick() else [(2, "first"), (5, "first"), (24, "middle"), (48, "last")]):
         case(ctx, random.Random(rng.getrandbits(32)), n, pos, i % 2 == 1, flags=("--fail-on-undefined",), named=(i % 3 == 2))
+    # confined to one processor
+    for i, (n, pos) in enumerate([(24, "first"), (48, "middle")] if ctx.quick() else [(17, "first"), (24, "first"), (48, "middle"), (64, "last")]):
+        case(ctx, random.Random(rng.getrandbits(32)), n, pos, False, one_cpu=True)
     # the same with a `log tail` listener attached
     for i, n in enumerate([2, 5, 24] if ctx.quick() else [2, 3, 5, 8, 24, 48]):
         case(ctx, random.Random(rng.getrandbits(32)), n, ["middle", "first", "last"][i % 3], False, listener=True)
 
 def replay(ctx, c):
     c = c.get("case", c)
-    case(ctx, random.Random(ctx.seed), c["size"], c["position"], "lint" in c.get("commands", []), c.get("undefined_ahead", 0), c.get("listener", False), c.get("named", False), c.get("shared_exec", False), tuple(c.get("flags", ())))
+    case(ctx, random.Random(ctx.seed), c["size"], c["position"], "lint" in c.get("commands", []), c.get("undefined_ahead", 0), c.get("listener", False), c.get("named", False), c.get("shared_exec", False), tuple(c.get("flags", ())), c.get("one_cpu", False))
     return {"spec_failures": [d for _, d in ctx.spec_failures][:3], "disagreements": [d for _, d in ctx.tie_breaks][:3]}
